@@ -378,3 +378,5 @@ def run(report, repo):
   report.rule('C12-R8', 'T-DOM: _finalize_measurements replaces the phase '
               'result only when it is not terminal')
   report.guard(c06.r5b_keep_terminal, report, repo, rule='C12-R8')
+  from sa.rules import extra4  # pylint: disable=g-import-not-at-top
+  report.guard(extra4.joins_are_bounded, report, repo, 'C12-R9')
